@@ -155,6 +155,12 @@ def run_item(item):
         if item.get('post_item'):
             item['post_item'](item, res)
         res['summaries_by_layout'] = {}
+        if item.get('witness'):
+            if not res['violations']:
+                res['error'] = 'vacuity witness %s was NOT violated: the oracle cannot see what it is supposed to see' % item['name']
+            res['extra']['witness_violations'] = len(res['violations'])
+            res['violations'] = []
+            res['outcomes'] = {('witness:' + k): v for k, v in res['outcomes'].items()}
     except Unsupported as e:
         res['error'] = 'unsupported: %s' % e
     except driver.ScriptError as e:
@@ -408,6 +414,7 @@ def run(prop, tier, seed, a, scratch, t_start):
                 return 2
     errors = [r for r in results if r.get('error')]
     extra = {}
+    extra['vacuity_witnesses'] = sum(1 for r_ in results if r_.get('extra', {}).get('witness_violations'))
     if spec.get('finish'):
         extra = spec['finish'](tier, seed, P, native, results, scratch) or {}
     viols = [v for r in results for v in r['violations']] + list(extra.pop('violations', []))
